@@ -372,8 +372,16 @@ fn b64ish(rng: &mut Rng, min: usize, max: usize) -> String {
 
 fn gen_profile(rng: &mut Rng, claimed: &str) -> (ExpProfile, Vec<u8>) {
     let id = hex(&rng.bytes(16));
-    let name = match rng.below(4) {
+    let name = match rng.below(5) {
         0 => claimed.chars().take(64).collect::<String>(),
+        // the account's real spelling differs from what the client typed in the case of letters
+        // only: the service's spelling is the verdict
+        4 => claimed
+            .chars()
+            .take(64)
+            .enumerate()
+            .map(|(i, c)| if i % 2 == 0 { if c.is_ascii_lowercase() { c.to_ascii_uppercase() } else { c.to_ascii_lowercase() } } else { c })
+            .collect::<String>(),
         1 => {
             let len = rng.range(1, 12) as usize;
             rng.string_from(RICH, len)
